@@ -201,8 +201,11 @@ pub const VAR_POOL: &[&str] = &[
 fn signed_coef(rng: &mut Rng) -> f64 {
     // a zero first-order coefficient is legal (and a number may then still carry
     // second-order terms)
-    if rng.chance(0.06) {
-        return 0.0;
+    match rng.below(100) {
+        0..=5 => return 0.0,
+        // the unit sensitivity of a freshly tagged variable
+        6..=15 => return 1.0,
+        _ => {}
     }
     let m = rng.log_uniform(0.1, 10.0);
     if rng.chance(0.35) {
